@@ -109,7 +109,13 @@ def eng_maskdom(f, sub, prop):
     maskdom.run_maskdom(f, sub, prop, want=("K1", "K2") if prop == "C20" else ("K2",))
 
 
-ENGINES = {"maskdom": eng_maskdom, "gates": eng_gates, "tables": eng_tables, "uxcomp": eng_uxcomp, "ctflow": eng_ctflow, "totality": eng_totality}
+def eng_muxshape(f, sub, prop):
+    from . import muxshape
+    muxshape.run_muxshape(f, sub, prop)
+    muxshape.run_lookups(f, sub, prop)
+
+
+ENGINES = {"muxshape": eng_muxshape, "maskdom": eng_maskdom, "gates": eng_gates, "tables": eng_tables, "uxcomp": eng_uxcomp, "ctflow": eng_ctflow, "totality": eng_totality}
 
 
 # ---- properties --------------------------------------------------------------
@@ -251,9 +257,16 @@ GATE_TEXT["C20"] = ("Structural core of C20, part 1 (maskdom): K1 every control 
                    "negate / lookup primitive (parameters named ctl and parameters forwarded to them) has a value set within "
                    "{0, 0xFFFFFFFF} at every call site (value-set / interval / signed-range / SIMD lane-mask abstract "
                    "interpretation, context-sensitive on small helpers); K2 every predicate returns such a word. Part 2 "
-                   "(muxshape, when built): the primitives are bitwise multiplexers over all limbs/fields. NOT decided: that "
+                   "(muxshape K3): every set_cond / cswap on a limb array stores, for every limb (all constant indices, or a "
+                   "loop over 0..len), exactly MUX(ctl, own, other) as a Boolean function (exhaustive truth-table equality; the "
+                   "selector must be the full-width broadcast of ctl, so zero-extension is rejected); composite types delegate "
+                   "field by field to verified primitives with their own ctl; select = copy a0 + set_cond(a1); set_condneg "
+                   "conditionally replaces exactly the fields that the type's negation negates. K4: every constant-time lookup scans "
+                   "its whole table: a single Range(0..N) loop without data-dependent exit whose table indices are affine in "
+                   "the loop variable with all columns covered and N x stride = table length, or an unrolled scan reading every "
+                   "entry with constant indices, or delegation to such a lookup. NOT decided: that "
                    "iszero/equals compute mathematical equality, that a lookup mask selects the requested index.")
-CHECKS = {"C20": check_gates("C20", ["maskdom"]), "C05": check_gates("C05", ["gates"]), "C06": check_gates("C06", ["gates"]), "C07": check_gates("C07", ["gates"]),
+CHECKS = {"C20": check_gates("C20", ["maskdom", "muxshape"]), "C05": check_gates("C05", ["gates"]), "C06": check_gates("C06", ["gates"]), "C07": check_gates("C07", ["gates"]),
           "C08": check_gates("C08", ["gates"]), "C09": check_gates("C09", ["gates"]),
           "C15": check_gates("C15", ["gates", "totality"]), "C16": check_gates("C16", ["gates"]),
           "C02": check_C02, "C04": check_C04, "C13": check_gates("C13", ["uxcomp", "gates"], level="exploration"),
